@@ -761,6 +761,9 @@ func checkC09(c *Ctx) {
 		})
 		c.Check(sizeOK && nameOK, "ERRFLOW", "tree.Consensus/taxa-mismatch", rs.Pos(), "different size or unknown name returns an error", fmt.Sprintf("taxon check of later trees incomplete (size compared and refused: %v, each name looked up and refused: %v)", sizeOK, nameOK)).Clause = "collections with differing taxa are rejected with an error"
 	}
+	c.Decides("EDGE-CACHE: inside the loop that calls AddBipartition (which re-creates the branch of every node it moves) no branch of the consensus tree remembered from before the loop is used")
+	c.edgeCache("EDGE-CACHE", c.AllFuncs("tree"))
+	c.Floor("EDGE-CACHE", 1)
 	c.Floor("GF", 2)
 	c.Floor("LF", 5)
 	c.Floor("ERRFLOW", 3)
